@@ -2,7 +2,8 @@
  * source/array_list.c + one harness per function under contract.  Compiled once per element size
  * (-DVERIF_ITEM_SIZE=n).  The harness only declares the parameters (DFCC allocates them according to the
  * requires clauses), switches the ghost witnesses on with arbitrary values, calls the function and plants
- * canaries on every return path. */
+ * canaries on every return path.  The r_* ghosts (contracts/array_list.h) record the list's pre-state for the native
+ * replay; they are arbitrary here and tied to the list by AL_REQ_OK. */
 #define VERIF_TRACK_ERRORS
 #include "contracts/array_list.h"
 #include "source/array_list.c"
@@ -16,7 +17,9 @@ void aws_fatal_assert(const char *cond_str, const char *file, int line) {
 }
 
 #define GHOSTS() do { AL_GHOST_RESET(); g_on = true; g_k = nondet_size_t(); g_old = nondet_u8(); g_j = nondet_size_t(); g_src = nondet_u8(); \
-                      g_va = nondet_u8(); g_vb = nondet_u8(); g_mm = nondet_size_t(); g_last_error = nondet_int(); g_raise_count = nondet_int(); } while (0)
+                      g_va = nondet_u8(); g_vb = nondet_u8(); g_mm = nondet_size_t(); g_last_error = nondet_int(); g_raise_count = nondet_int(); \
+                      r_al_on = true; r_length = nondet_size_t(); r_current_size = nondet_size_t(); r_dynamic = (nondet_int() != 0); \
+                      r2_length = nondet_size_t(); r2_current_size = nondet_size_t(); r2_dynamic = (nondet_int() != 0); } while (0)
 #define SMALL 1000 /* canary split only: "small" vs "huge" index */
 
 /* ---------------------------------------------------------------- observers */
